@@ -313,19 +313,40 @@ func GenLogQuery(r *rand.Rand, d *DB, o GenOpts) *LogQuery {
 			}
 			q.Stages = append(q.Stages, Stage{Kind: "jsonp", Params: ps})
 		case k == 7 && !o.JSONLines:
-			q.Stages = append(q.Stages, Stage{Kind: "regexp", Val: `id=(?P<rid>\d+) took (?P<took>\d+)ms`})
+			q.Stages = append(q.Stages, Stage{Kind: "regexp", Val: regexpPatterns[r.Intn(len(regexpPatterns))]})
 			extracted = append(extracted, "rid")
 		case k == 8:
-			p := Param{A: []string{"lvl", "pod", "zone"}[r.Intn(3)]}
+			// one to three parameters, bare names and name="value" in any order
+			var ps []Param
+			names := []string{"lvl", "pod", "zone"}
+			r.Shuffle(len(names), func(i, j int) { names[i], names[j] = names[j], names[i] })
+			np := 1
 			if r.Intn(2) == 0 {
-				p.HasB, p.B = true, pickVal(r, d, p.A)
+				np = 2 + r.Intn(2)
 			}
-			q.Stages = append(q.Stages, Stage{Kind: "drop", Params: []Param{p}})
+			for _, nm := range names[:np] {
+				p := Param{A: nm}
+				if r.Intn(2) == 0 {
+					p.HasB, p.B = true, pickVal(r, d, p.A)
+				}
+				ps = append(ps, p)
+			}
+			q.Stages = append(q.Stages, Stage{Kind: "drop", Params: ps})
 		default:
 			q.Stages = append(q.Stages, genLineFilter(r, o.Hostile))
 		}
 	}
 	return q
+}
+
+// regexpPatterns: every one extracts rid from lines "… id=<n> took <m>ms …"; named groups flat, nested in one
+// another, beside a non-capturing group, and wrapped in one named group for the whole match.
+var regexpPatterns = []string{
+	`id=(?P<rid>\d+) took (?P<took>\d+)ms`,
+	`id=(?P<rid>\d+) took (?P<took>\d+)ms`,
+	`(?P<req>id=(?P<rid>\d+)) took (?P<took>\d+)ms`,
+	`(?P<all>id=(?P<rid>\d+) took (?P<took>\d+)ms)`,
+	`(?:id)=(?P<rid>\d+) took (?P<took>(?P<first>\d)\d*)ms`,
 }
 
 var rangeFns = []string{"rate", "count_over_time", "bytes_rate", "bytes_over_time"}
